@@ -95,6 +95,9 @@ def run(db, rep, tier):
     r4(db, rep)
     r5(db, rep)
     r6(db, rep)
+    rep.rule("R7-insert-position", "a new field is inserted at the position the field walk stopped at (right behind the last lower-numbered "
+                                   "field), or at 0 in an empty buffer - never at the end of the buffer, which may hold trailing pad bytes", 1)
+    r7(db, rep)
     rep.extra["table_rows"] = len(rows)
     rep.explanation = ("Structural part of C11: per-field agreement of setter, getter and the shared size/alignment table (incl. natural "
                        "alignment of each settable field), the writer's and parser's use of that table with the RadioTap header start as "
@@ -651,3 +654,36 @@ def r6(db, rep):
                       "offset == offset0 + i + D is not re-established at the end of an iteration: offset is [%s], index position is [%s]" % bad_end)
     else:
         rep.ok("R6-repad-cursor", key, facts.loc(f, loop), "offset == offset0 + i + D holds again after each of the %d paths through the body" % len(ends))
+
+
+def r7(db, rep):
+    fs = [f for f in db.fns_named("Tins::Utils::RadioTapWriter::write_option") if f.get("body")]
+    if not fs:
+        rep.analysis_broken("RadioTapWriter::write_option vanished")
+        return
+    f = fs[0]
+    key = "write_option:offset"
+    decl = [x for x in facts.fn_nodes(f) if x["k"] == "VarDecl" and x.get("name") == "offset" and x.get("c")]
+    if not decl:
+        rep.analysis_broken("write_option: the insertion offset was not found")
+        return
+
+    def arms(e):
+        e0 = facts.strip_all(e)
+        if e0["k"] == "ConditionalOperator":
+            return arms(e0["c"][1]) + arms(e0["c"][2])
+        return [e0]
+    bad = None
+    for a in arms(decl[0]["c"][0]):
+        t = facts.expr_str(a)
+        if facts.cval(a) == 0:
+            continue
+        if a["k"] == "BinaryOperator" and a.get("op") == "-" and "candidate_ptr" in facts.expr_str(a["c"][0]) and "begin" in facts.expr_str(a["c"][1]):
+            continue
+        bad = t
+    if bad:
+        rep.violation("R7-insert-position", key, facts.loc(f, decl[0]),
+                      "the insertion offset can be `%s`: in a parsed header whose length is rounded up the buffer ends with pad bytes, the "
+                      "parser looks for the new field right behind the last field, the writer puts it behind the padding" % bad[:80])
+    else:
+        rep.ok("R7-insert-position", key, facts.loc(f, decl[0]), "0 in an empty buffer, otherwise the position where the field walk stopped")
